@@ -168,7 +168,18 @@ pub fn par_map<T: Send, F: Fn(usize) -> T + Sync>(n: usize, threads: usize, f: F
                 if i >= n {
                     break;
                 }
-                let r = f(i);
+                let r = match std::panic::catch_unwind(std::panic::AssertUnwindSafe(|| f(i))) {
+                    Ok(r) => r,
+                    Err(p) => {
+                        let msg = p
+                            .downcast_ref::<String>()
+                            .cloned()
+                            .or_else(|| p.downcast_ref::<&str>().map(|s| s.to_string()))
+                            .unwrap_or_default();
+                        eprintln!("CHECK-BROKEN harness job {} panicked: {}", i, msg);
+                        std::process::exit(3);
+                    }
+                };
                 out.lock().unwrap()[i] = Some(r);
             });
         }
@@ -184,4 +195,17 @@ pub fn ncpu() -> usize {
     std::thread::available_parallelism()
         .map(|n| n.get())
         .unwrap_or(4)
+}
+
+/// Run code under test, turning a panic into Err("panic: <message>").
+pub fn catch<T>(f: impl FnOnce() -> T) -> Result<T, String> {
+    std::panic::catch_unwind(std::panic::AssertUnwindSafe(f)).map_err(|p| {
+        format!(
+            "panic: {}",
+            p.downcast_ref::<String>()
+                .cloned()
+                .or_else(|| p.downcast_ref::<&str>().map(|s| s.to_string()))
+                .unwrap_or_else(|| "(no message)".into())
+        )
+    })
 }
